@@ -398,7 +398,7 @@ def check(repo, rep, tier):
     rule_unguarded_emissions(repo, r6)
     rule_dummy_path(repo, r6)
     r8 = rep.rule("R-C09-8", "gadgets emit the same wires and constraints in a branch that is taken and in one that is not "
-                  "(is_guard() hint arms vs dummy arms; shared with C07)", floor=3)
+                  "(is_guard() hint arms vs dummy arms; shared with C07)", floor=2)
     from .c07 import rule_hint_arms
     from .c06 import VALUE_MODULES as _VM
     rule_hint_arms(repo, r8, set(_VM))
